@@ -252,7 +252,7 @@ fn check_type<T: Jetty>(tname: &str, ctx: &Ctx, shard: usize, nshards: usize, ti
             }
         }
         // (ii) random full grid points, all ops
-        let reps = ctx.n(1500, 40000);
+        let reps = ctx.n(1500, 600000);
         for rep in 0..reps {
             idx += 1;
             if idx % nshards as u64 != shard as u64 {
